@@ -1,6 +1,7 @@
 CONSTANTS
   MaxD = 4
   Locked = TRUE
+  CanDisconnect = FALSE
   AllGroups = TRUE
 SPECIFICATION Spec
 INVARIANTS TypeOK FramesAtomic CompletedOnceAfterPending NothingForUnannounced HasNextFalseExactlyLast CounterIsOpen CounterNonNegative ZeroIsLast Reconstructs DeadNeverRuns
